@@ -211,7 +211,7 @@ func mutateBytes(r *vlib.R, in []byte) []byte {
 
 func runC12(tier string, _ []string) int {
 	c := vlib.NewCtx("C12", tier, "exploration")
-	c.SetRule("round trips: PRNG points/nodes (hostile strings, float bit patterns incl. NaN payloads, wire-range times, data nil/empty/random) through ToPb/PbDecodePoints, ToPb/PbDecodeNode, Nodes.ToPb/PbDecodeNodes, hand-wrapped NodeRequest/NodesRequest; distinct = (codec, count of points, field classes present). decoders: random bytes and mutations (truncate, flip, set, insert, delete, splice, huge varint) of valid encodings into all 9 decoders + 4 subject parsers; distinct = (decoder, outcome class, input length bucket)")
+	c.SetRule("round trips: PRNG points/nodes (hostile strings, float bit patterns incl. NaN payloads, wire-range times, data nil/empty/random) through ToPb/PbDecodePoints, ToPb/PbDecodeNode, Nodes.ToPb/PbDecodeNodes, hand-wrapped NodeRequest/NodesRequest; 2-6 encodings (half of them above 4 KiB) made in a row from 12 goroutines and decoded only afterwards; distinct = (codec, count of points, field classes present). decoders: random bytes and mutations (truncate, flip, set, insert, delete, splice, huge varint) of valid encodings (incl. bare 17-20 byte serial frames of every documented subject) into all 9 decoders + 4 subject parsers; distinct = (decoder, outcome class, input length bucket)")
 	c.Assume("times limited to 0001..9999 (wire range); tombstone within int32 (wire type)")
 	nRT := c.N(30000, 1500000)
 	nDec := c.N(100000, 5000000)
@@ -379,8 +379,78 @@ func runC12(tier string, _ []string) int {
 			return e
 		}},
 	}
+	// ---- encodings produced one after the other (also from several goroutines) and decoded later:
+	// each must still be the encoding of its own value (a sender may hold several messages before
+	// publishing them; large batches included)
+	nQ := c.N(300, 6000)
+	vlib.Parallel(nQ, 0, func(i int) {
+		r := vlib.NewR(c.Seed, "c12queue", i)
+		n := 2 + r.Intn(5)
+		type enc struct {
+			pts data.Points
+			b   []byte
+			nb  []byte
+		}
+		var q []enc
+		for k := 0; k < n; k++ {
+			np := 1 + r.Intn(5)
+			big := r.Chance(0.5)
+			if big {
+				np = 40 + r.Intn(200) // well above 4 KiB on the wire
+			}
+			e := enc{pts: make(data.Points, np)}
+			for j := range e.pts {
+				e.pts[j] = genWirePoint(r)
+			}
+			var err error
+			if e.b, err = e.pts.ToPb(); err != nil {
+				c.Violate("wire:points-encode-error", err.Error(), witnessPoints(e.pts))
+				return
+			}
+			ne := data.NodeEdge{ID: fmt.Sprint("q", k), Type: "t", Parent: "p", Points: e.pts}
+			if e.nb, err = ne.ToPb(); err != nil {
+				c.Violate("wire:node-encode-error", err.Error(), witnessPoints(e.pts))
+				return
+			}
+			q = append(q, e)
+		}
+		for k, e := range q {
+			c.Eval(2)
+			back, err := data.PbDecodePoints(e.b)
+			d := ""
+			if err == nil {
+				d = pointsDiff(e.pts, back)
+			}
+			if err != nil || d != "" {
+				c.Violate("wire:encoding-changed-after-later-encode", fmt.Sprintf("encoding %d of %d made in a row (%d points, %d bytes) no longer decodes to its points: %v %s", k+1, n, len(e.pts), len(e.b), err, d), map[string]any{"case": i, "seed": c.Seed, "index": k, "points": len(e.pts)})
+				return
+			}
+			nd, err := data.PbDecodeNode(e.nb)
+			if err == nil {
+				d = pointsDiff(e.pts, nd.Points)
+			}
+			if err != nil || d != "" || nd.ID != fmt.Sprint("q", k) {
+				c.Violate("wire:encoding-changed-after-later-encode", fmt.Sprintf("node encoding %d of %d made in a row no longer decodes to its node: %v %s id=%q", k+1, n, err, d, nd.ID), map[string]any{"case": i, "seed": c.Seed, "index": k})
+				return
+			}
+		}
+		c.Count("encodings_made_in_a_row_checked", int64(2*n))
+	})
 	// seeds of valid encodings
 	var valid [][]byte
+	// serial frames of every documented subject with 0..3 bytes behind the 17-byte header (a log frame
+	// has no checksum: 17 bytes are a complete log frame with an empty text)
+	for _, subj := range []string{"log", "ack", "phr", "p.abcd", "p.abcd.efgh", ""} {
+		for extra := 0; extra <= 3; extra++ {
+			f := make([]byte, 17+extra)
+			f[0] = byte(extra)
+			copy(f[1:], subj)
+			for j := 0; j < extra; j++ {
+				f[17+j] = []byte{0, 'x', 0xff}[(j+extra)%3]
+			}
+			valid = append(valid, f)
+		}
+	}
 	for i := 0; i < 64; i++ {
 		r := vlib.NewR(c.Seed, "c12valid", i)
 		pts := make(data.Points, r.Intn(4))
